@@ -102,11 +102,6 @@ func Run(a common.Args) {
 		rec.Fatal("faucet genesis config not as overridden: %+v", g)
 	}
 
-	// traces that may request values strictly between pour_amount and max_pour_amount
-	midTraces := 4
-	if a.Tier == "thorough" {
-		midTraces = 8
-	}
 	id := 0
 	for _, b := range common.Behaviours(a.Behav) {
 		id++
@@ -123,7 +118,7 @@ func Run(a common.Args) {
 			continue
 		}
 		d.r = common.TraceRand(a.Seed, id)
-		d.random(id, a, i < midTraces)
+		d.random(id, a)
 	}
 }
 
@@ -316,8 +311,8 @@ func (d *drv) behaviour(id int, raw json.RawMessage) {
 
 func (d *drv) pick(xs ...int64) int64 { return xs[d.r.Intn(len(xs))] }
 
-func (d *drv) random(id int, a common.Args, mid bool) {
-	d.reset(id, "random", map[string]interface{}{"seed": a.Seed, "steps": a.Steps, "mid": mid})
+func (d *drv) random(id int, a common.Args) {
+	d.reset(id, "random", map[string]interface{}{"seed": a.Seed, "steps": a.Steps})
 	w, r := d.w, d.r
 	now := int64(0)
 	if r.Intn(10) < 7 {
@@ -341,12 +336,6 @@ func (d *drv) random(id int, a common.Args, mid bool) {
 			v := d.pick(0, 0, 1, p-1, p, p, p+1, (p+mx)/2, mx-1, mx-1, mx, mx+1, 1000000)
 			if v < 0 {
 				v = 0
-			}
-			if mid && r.Intn(2) == 0 && mx-p > 1 {
-				v = d.pick(p+1, (p+mx)/2, mx-1, mx-1)
-			}
-			if !mid && v > p && v < mx { // the class between pour_amount and max_pour_amount only in designated traces
-				v = d.pick(p, mx)
 			}
 			d.do(from, "pour", "pour", nil, uint64(v))
 		case x < 87:
